@@ -40,6 +40,11 @@ type doCall struct {
 	// retry twice, 3 = never anything) and THEN DoWithErr: options apply in
 	// order, the later one replaces the earlier - an error without a handler
 	Overridden int `json:"overridden,omitempty"`
+	// Late (skip / exit / retry, first call of a sequential attempt only): the
+	// handler's decision is supplied only when the instance is quiescent after
+	// the Do call - by then the error trace of the answer must be there (it is
+	// what the one who decides reacts to)
+	Late bool `json:"late,omitempty"`
 }
 
 // attempt is the history of Do calls for one request of the activity.
@@ -182,7 +187,15 @@ type overriddenErr struct{}
 func (overriddenErr) Error() string { return "an earlier option, replaced by a later one" }
 
 func (c doCall) options() []bpmn.DoOption {
-	var opts []bpmn.DoOption
+	opts, decide := c.optionsLate(false)
+	_ = decide
+	return opts
+}
+
+// optionsLate: with late set the handler channel of a skip / exit / retry
+// answer is left empty; decide supplies the decision.
+func (c doCall) optionsLate(late bool) (opts []bpmn.DoOption, decide func()) {
+	decide = func() {}
 	res := map[string]any{}
 	if c.Kind == "ok" {
 		res["sel"] = c.Sel
@@ -197,7 +210,7 @@ func (c doCall) options() []bpmn.DoOption {
 		if c.Objects {
 			opts = append(opts, bpmn.DoWithObjects(map[string]any{"out": c.X, "zzobj": int64(5)}))
 		}
-		return opts
+		return opts, decide
 	}
 	switch c.Kind {
 	case "err":
@@ -214,17 +227,24 @@ func (c doCall) options() []bpmn.DoOption {
 		opts = append(opts, bpmn.DoWithErr(planErr{}))
 	default:
 		ch := make(chan bpmn.ErrHandler, 1)
-		switch c.Kind {
-		case "skip":
-			ch <- bpmn.ErrHandler{Mode: bpmn.SkipMode}
-		case "exit":
-			ch <- bpmn.ErrHandler{Mode: bpmn.ExitMode}
-		case "retry":
-			ch <- bpmn.ErrHandler{Mode: bpmn.RetryMode, Retries: int32(c.Retries)}
+		fill := func() {
+			switch c.Kind {
+			case "skip":
+				ch <- bpmn.ErrHandler{Mode: bpmn.SkipMode}
+			case "exit":
+				ch <- bpmn.ErrHandler{Mode: bpmn.ExitMode}
+			case "retry":
+				ch <- bpmn.ErrHandler{Mode: bpmn.RetryMode, Retries: int32(c.Retries)}
+			}
+		}
+		if late {
+			decide = fill
+		} else {
+			fill()
 		}
 		opts = append(opts, bpmn.DoWithErrHandle(planErr{}, ch))
 	}
-	return opts
+	return opts, decide
 }
 
 // state is the model's view after some attempts.
@@ -307,6 +327,7 @@ type result struct {
 	Inconcl         string
 	XML             string
 	MaxCalls        int
+	Late            bool
 	ErrModes        int
 }
 
@@ -407,14 +428,29 @@ func runCase(d descriptor) *result {
 			start.Done()
 		} else {
 			for i, c := range att.Calls {
-				go func(i int, c doCall) {
-					tt.Do(c.options()...)
+				late := i == 0 && c.Late && (c.Kind == "skip" || c.Kind == "exit" || c.Kind == "retry")
+				opts, decide := c.optionsLate(late)
+				before := errorsOf(in, bt.A)
+				go func(i int) {
+					tt.Do(opts...)
 					close(returned[i])
-				}(i, c)
+				}(i)
 				// sequential: wait until this call returned (or is provably blocked)
-				if _, err := in.Quiesce(); err != nil {
+				gs, err := in.Quiesce()
+				if err != nil {
 					r.Inconcl = err.Error()
 					return r
+				}
+				if late {
+					r.Late = true
+					if now := errorsOf(in, bt.A); now != before+1 {
+						return fail("late-decision", fmt.Sprintf("attempt %d: the task was answered with an error and a handler whose decision has not been supplied yet; the instance is quiescent and %d error trace(s) for the task have appeared since the answer, want 1 (the answer emits the error trace, the decision comes after it)", ai, now-before), gs)
+					}
+					decide()
+					if _, err := in.Quiesce(); err != nil {
+						r.Inconcl = err.Error()
+						return r
+					}
 				}
 			}
 		}
@@ -603,6 +639,17 @@ func runCase(d descriptor) *result {
 	return r
 }
 
+// errorsOf counts the error traces of task a seen so far.
+func errorsOf(in *drive.Inst, a string) int {
+	n := 0
+	for _, t := range in.Traces() {
+		if et, ok := t.(bpmn.ErrorTrace); ok && drive.ClassifyError(et.Error) == "task:"+a {
+			n++
+		}
+	}
+	return n
+}
+
 func drawCall(rt *rapid.T, allowRetry bool) doCall {
 	kinds := []string{"ok", "ok", "ok", "err", "skip", "exit"}
 	if allowRetry {
@@ -611,7 +658,8 @@ func drawCall(rt *rapid.T, allowRetry bool) doCall {
 	return doCall{Kind: rapid.SampledFrom(kinds).Draw(rt, "kind"), Sel: int64(rapid.IntRange(1, 2).Draw(rt, "sel")), X: int64(rapid.IntRange(3, 9).Draw(rt, "x")),
 		Undeclared: rapid.Bool().Draw(rt, "undeclared"), Retries: rapid.IntRange(0, 3).Draw(rt, "retries"), Objects: rapid.Bool().Draw(rt, "objects"),
 		F:     rapid.SampledFrom([]float64{1.5, -0.25, 2.5e-7, 0.7500004, 1e21, 123456789.123456789, 5e-324, -3}).Draw(rt, "f"),
-		OmitX: rapid.IntRange(0, 3).Draw(rt, "omitX") == 0, Overridden: rapid.SampledFrom([]int{0, 0, 1, 2, 3}).Draw(rt, "overridden")}
+		OmitX: rapid.IntRange(0, 3).Draw(rt, "omitX") == 0, Overridden: rapid.SampledFrom([]int{0, 0, 1, 2, 3}).Draw(rt, "overridden"),
+		Late: rapid.IntRange(0, 2).Draw(rt, "late") == 0}
 }
 
 func drawDescriptor(rt *rapid.T) descriptor {
@@ -764,6 +812,9 @@ func TestC08Histories(t *testing.T) {
 		}
 		rec.End(hash, r.Symptom)
 		cls := []string{"kind=" + d.TaskKind, fmt.Sprintf("maxCalls=%d", r.MaxCalls)}
+		if r.Late {
+			cls = append(cls, "lateDecision")
+		}
 		for _, a := range d.Attempts {
 			if a.Concurrent && len(a.Calls) >= 2 {
 				cls = append(cls, "concurrentDo")
